@@ -184,72 +184,33 @@ theorem bool_noCrash : NoCrash boolCodec := by
     exact parseNum_no_crash vs1' _ _ hp
   | ok r => simp [bind, Except.bind, pure, Except.pure]
 
-/-! ### language lists (only the empty list is inside the round-trip domain proved here) -/
-
-theorem languageList_roundTrip_empty : RoundTrip languageListCodec (fun v => v = []) := by
-  intro v hv
-  subst hv
-  refine ⟨[0, 0, 0, 0], by decide, ?_⟩
-  intro s
-  simp only [languageListCodec, parseLanguageList]
-  have : ([0, 0, 0, 0] ++ s : Bytes).take 4 = [0, 0, 0, 0] := by simp
-  rw [this]
-  rfl
+/-! ### language lists -/
 
 theorem languageList_parse_ok_inv {bs : Bytes} {v : List (List Bytes)} {n : Nat}
-    (h : parseLanguageList bs = .ok (v, n)) :
-    4 ≤ bs.length ∧
-    ((beVal (bs.take 4) = 0 ∧ n = 4) ∨
-     (beVal (bs.take 4) ≠ 0 ∧ n = 4 + ((bs.drop 4).take (beVal (bs.take 4))).length)) := by
+    (h : parseLanguageList bs = .ok (v, n)) : ∃ body, nameListBody bs = .ok (body, n) := by
   unfold parseLanguageList at h
-  cases hp : parseNum .network 4 (bs.take 4) with
-  | error e => simp [hp, bind, Except.bind] at h
+  cases hb : nameListBody bs with
+  | error e => simp [hb, bind, Except.bind] at h
   | ok r =>
-    obtain ⟨len, m⟩ := r
-    obtain ⟨hm, hlen, _, henc, _⟩ := parseNum_ok_inv hp
-    subst hm
-    have h4 : 4 ≤ bs.length := by
-      have h' : (bs.take 4).length = min 4 bs.length := List.length_take
-      omega
-    have hdec : len = beVal (bs.take 4) := by
-      have := parseNum_val' hp
-      rw [this, List.take_take]; simp [decNat, ByteOrder.isBig]
-    refine ⟨h4, ?_⟩
-    simp only [hp, bind, Except.bind] at h
-    by_cases hz : len = 0
-    · left
-      subst hz
-      simp [pure, Except.pure] at h
-      exact ⟨hdec.symm, h.2.symm⟩
-    · right
-      have hbeq : (len == 0) = false := by simp [hz]
-      simp only [hbeq, Bool.false_eq_true, if_false] at h
-      refine ⟨hdec ▸ hz, ?_⟩
-      cases hs : splitItems comma ((bs.drop 4).take len) with
+    obtain ⟨body, m⟩ := r
+    simp only [hb, bind, Except.bind] at h
+    split at h
+    · simp only [pure, Except.pure, Except.ok.injEq, Prod.mk.injEq] at h
+      exact ⟨body, by rw [h.2]⟩
+    · cases hs : splitItems comma body with
       | error e => simp [hs] at h
       | ok items =>
         simp only [hs] at h
         cases ht : parseLanguageTags items with
         | error e => simp [ht] at h
         | ok tags =>
-          simp [ht, pure, Except.pure] at h
-          rw [← hdec, ← h.2]; simp
-where
-  parseNum_val' {b : Bytes} {v n : Nat} (h : parseNum .network 4 b = .ok (v, n)) :
-      v = decNat .network (b.take 4) := by
-    unfold parseNum at h
-    split at h
-    · simp at h
-    · split at h
-      · simp at h
-      · simp at h; exact h.1.symm
+          simp only [ht, pure, Except.pure, Except.ok.injEq, Prod.mk.injEq] at h
+          exact ⟨body, by rw [h.2]⟩
 
 theorem languageList_lenBound : LenBound languageListCodec := by
   intro bs v n h
-  obtain ⟨h4, h | ⟨_, hn⟩⟩ := languageList_parse_ok_inv h
-  · omega
-  · rw [hn]
-    simp only [List.length_take, List.length_drop]
-    omega
+  obtain ⟨body, hb⟩ := languageList_parse_ok_inv h
+  have := nameListBody_ok_inv hb
+  omega
 
 end Cp.Ssh
